@@ -22,6 +22,7 @@ import Rooc.Proofs.RatInst
 import Rooc.Proofs.WFPerm
 import Rooc.Proofs.WFRel2An
 import Rooc.Proofs.RefLemmas
+import Rooc.Proofs.WFOccur
 namespace Rooc.Props.C08
 open Rooc Rooc.Lin Rooc.WFDedup Rooc.Lin.Examples
 
@@ -586,5 +587,27 @@ theorem compile_occurring_vars_present {m : Model α} {tol : α} {maxSteps : Nat
 
 example (tol : Ext Rat) : "x" ∈ (assemble exA (Ctx.fromVar "x" Arith.one) exA_final).vars :=
   compile_occurring_vars_present (m := exA) (by decide) (exA_compile tol) "x" (by decide)
+
+/-- … and has a domain entry there: the oracle's clause `WF.occurringPresent` (evaluated on the implementation's output
+for every compiled case — it does not read the usage counters of the source domain, so it also covers a column or a
+domain entry lost by a search in a differently sorted list; harness stream `name-order`: names that differ in letter
+case only, `a B c D`, `x10 x2`, non-ASCII names). -/
+theorem compile_occurring_present {m : Model α} {tol : α} {maxSteps : Nat} {lm : LinModel α}
+    (hd : SourceNodup m = true) (hcl : Ref.Closed m = true) (h : Compile.linearize m tol maxSteps = .ok lm) :
+    WF.occurringPresent m lm = true := by
+  have hok := compile_report_ok_structural hd h
+  simp only [WF.Report.ok, WF.report, Bool.and_eq_true, List.all_eq_true] at hok
+  simp only [WF.occurringPresent, WF.occurring_eq_modelVars, List.all_eq_true, Bool.and_eq_true,
+    List.contains_iff_mem]
+  intro x hx
+  have hv := compile_occurring_vars_present hcl h x hx
+  exact ⟨hv, hok.1.1.1.1.1.1.1.2.1.1 x hv⟩
+
+/-- the order of the variable list is the order of `String` (`<` on the code points = byte order of the UTF-8
+encoding, what `Vec<String>::sort` uses): upper-case letters come before lower-case ones, `x10` before `x2`. -/
+example : WF.sortedStrict ["B", "D", "a", "c", "x10", "x2", "É", "é"] = true := by decide
+
+example (tol : Ext Rat) : WF.occurringPresent exA (assemble exA (Ctx.fromVar "x" Arith.one) exA_final) = true :=
+  compile_occurring_present (by decide) (by decide) (exA_compile tol)
 
 end Rooc.Props.C08
